@@ -109,6 +109,9 @@ Section Valid.
     - apply on_input_sstepT. intros a; split; reflexivity.
     - apply on_input_sstepT. intros a; destruct hk; split; reflexivity.
     - apply on_input_sstepT. intros a; split; reflexivity.
+    - apply on_input_sstepT. intros a; apply apply_update_frame.
+    - apply on_input_sstepT. intros a; split; reflexivity.
+    - apply on_input_sstepT. intros a; split; reflexivity.
     - unfold update_input. destruct (nth_error (p_inputs st) i) as [a|] eqn:Hn; [|apply sstepT_refl].
       destruct (p_ntx st <=? i); [apply sstepT_refl|].
       destruct (match i_nwutxo a with Some nw => negb (nw_txid_ok nw) | None => false end); [apply sstepT_refl|].
